@@ -16,7 +16,6 @@ import (
 	"github.com/scrapli/scrapligo/driver/generic"
 	"github.com/scrapli/scrapligo/driver/netconf"
 	"github.com/scrapli/scrapligo/driver/options"
-	"github.com/scrapli/scrapligo/logging"
 	"github.com/scrapli/scrapligo/transport"
 	"github.com/scrapli/scrapligo/util"
 
@@ -29,95 +28,6 @@ func c16min(a, b int) int {
 		return a
 	}
 	return b
-}
-
-// c16Lock: a Read blocked inside Transport.read (it holds implLock) and a concurrent Close(force).
-// force: Close returns, the read returns with an error (model: `lock 1 ccr` = done done closed).
-// no force: Close waits for the lock for as long as the read stays blocked (model: `lock 0 …` =
-// inRead waitLock open); it completes once the read returns because data arrived.
-func c16Lock(c *ctx, force bool) {
-	res := c.res
-	line := "lock 0"
-	sched := "crcrcr"
-	if force {
-		line = "lock 1"
-		sched = "rccr"
-	}
-	res.Case(line, true)
-	res.Count("lock-skeleton")
-	ans := strings.Fields(c.ask([]string{"c16 lock " + line[5:] + " " + sched})[0])
-	if len(ans) != 3 {
-		res.Fail("machinery", line, "model answered "+strings.Join(ans, " "), "c16:model-answer")
-		return
-	}
-	res.InDomain++
-	pipe := sim.NewPipe()
-	log, _ := logging.NewInstance()
-	tr, err := transport.NewTransport(log, "h", transport.SystemTransport, options.WithCustomTransport(pipe))
-	if err != nil || tr.Open() != nil {
-		res.Fail("machinery", line, fmt.Sprint("transport over sim.Pipe: ", err), "c16:lock-setup")
-		return
-	}
-	rd := c16NewReader(tr)
-	defer close(rd.req)
-	rd.start(0)
-	if _, ok := rd.wait(c16BlockProbe); ok {
-		res.Fail("machinery", line, "read on an empty sim.Pipe returned", "c16:lock-setup")
-		return
-	}
-	closeDone := make(chan struct{})
-	go func() { _ = tr.Close(force); close(closeDone) }()
-	implClose, implRead := "waitLock", "inRead"
-	if force {
-		select {
-		case <-closeDone:
-			implClose = "done"
-		case <-time.After(c16UnblockBound):
-			res.Fail("oracle", line, fmt.Sprintf("Transport.Close(true) did not return within %v while a Read held the implementation lock", c16UnblockBound), "c16:transport:force-close-waits-for-lock")
-		}
-		if r, ok := rd.wait(c16UnblockBound); ok {
-			implRead = "done"
-			if r.err == nil {
-				res.Fail("oracle", line, "blocked Read returned without error after Close(true)", "c16:transport:force-close-result")
-			}
-		} else {
-			res.Fail("oracle", line, fmt.Sprintf("blocked Read did not return within %v after Close(true)", c16UnblockBound), "c16:transport:not-unblocked-by-close")
-			pipe.EmitLocked([]byte("x")) // let the goroutines go
-		}
-	} else {
-		select {
-		case <-closeDone:
-			implClose = "done"
-		case <-time.After(150 * time.Millisecond):
-		}
-		if _, ok := rd.wait(time.Millisecond); ok {
-			implRead = "done"
-		}
-	}
-	implClosed := "0"
-	pipe.Snapshot(func() {
-		if pipe.Closed {
-			implClosed = "1"
-		}
-	})
-	impl := implRead + " " + implClose + " " + implClosed
-	if impl != strings.Join(ans, " ") {
-		res.Fail("correspondence", line, fmt.Sprintf("blocked Read + Close(%v): transport reader/closer/closed = %s, model %s", force, impl, strings.Join(ans, " ")), "c16:transport:lock-skeleton-differs")
-	}
-	res.TracesVsImpl++
-	if !force && implClose != "done" {
-		// release: data arrives, the read returns it, Close(false) gets the lock and completes
-		pipe.EmitLocked([]byte("x"))
-		r, ok := rd.wait(c16UnblockBound)
-		if !ok || string(r.data) != "x" || r.err != nil {
-			res.Fail("oracle", line, fmt.Sprintf("read did not deliver the byte that arrived while Close(false) was waiting (ok=%v data=%q err=%v)", ok, r.data, r.err), "c16:transport:lost-during-close")
-		}
-		select {
-		case <-closeDone:
-		case <-time.After(c16UnblockBound):
-			res.Fail("oracle", line, "Close(false) did not complete after the read returned", "c16:transport:close-stuck")
-		}
-	}
 }
 
 // ---------------------------------------------------------------------------------------------
